@@ -1,6 +1,6 @@
 CONSTANTS
-  Keys = {"a", "b", "c"}
-  Vals = {1, 2}
+  Keys = {"", "b", "c"}
+  Vals = {0, 3}
   MaxLen = 3
   Docs <- MCDocs
 SPECIFICATION HSpec
